@@ -86,6 +86,11 @@ CHECKS = {
          "Scenarios of 1..8 reference WebSocket clients (send text/binary in 1..3 fragments, bursts of several messages in one write, ping, sleeps; leaving with a Close or vanishing abruptly with the heartbeat on), handler pools of 1..8 threads, poll interval none..10 ms, and an external AsyncSender issuing unicasts and broadcasts, ended by a shutdown signal. Checked over the event log and the clients' frames: connect and disconnect exactly once per client; each client message dispatched exactly once; with a 1-thread handler pool connect before first message, messages in send order, nothing after disconnect; each echo unicast reaches exactly its sender once; external messages at most once, unicasts only at their addressee, and every client that was connected and not leaving when one was issued receives it; run() returns within 10 s of the shutdown signal.",
          "Interleavings are those the OS scheduler and the generated delays produce (no controlled scheduler), so a race can be missed but the oracle accepts every linearisation the property allows. Heartbeat 100 ms / 1.5 s; clients answer pings.",
          "DESIGN.md §5 C12"),
+ "C19": ("exploration",
+         "random generation of blacklist configurations, client addresses and requests at two levels: in-process handler calls (volume) and the real server binary spawned from a generated configuration file with loopback clients bound to chosen source addresses (end to end)",
+         "Level 1: file_handler, directory_handler, redirect_handler and proxy_handler are called in-process with an AppState built from a generated blacklist (IPv4/IPv6 entries), cache on/off (optionally warmed from an unlisted address) and requests parsed by the real parser from generated peers and X-Forwarded-For lists. Level 2: the real `humphrey` binary is built from the working tree and started from generated configuration files (block / forbidden mode, blacklist file, all four route types, cache on/off, 127.0.0.1 or [::1]); clients bind to generated source addresses in 127.0.0.0/8 and ::1. A listed peer must get zero bytes in block mode and 403 in forbidden mode whatever headers it sends, a request forwarded on behalf of a listed address must get 403, never the marker content or redirect target, and all-unlisted requests must be served normally (200 with marker / 301 / upstream's response).",
+         "Trusts the scripted marker upstream and the ability to bind loopback aliases; requests where only an intermediate forwarded address is listed accept either outcome.",
+         "DESIGN.md §5 C19"),
 }
 
 NOT_YET = "check not built yet (work in progress; see DESIGN.md §5 for the intended design)"
